@@ -172,21 +172,12 @@ def startCase (s : St) : St := Id.run do
     if cs.absFreq i != f then s := s.diff s!"absFreq clock={i} model={showRat (cs.absFreq i)} impl={showRat f}"
     if cs.clockPinSource i != ps then s := s.diff s!"clockPinSource clock={i} model={cs.clockPinSource i} impl={ps}"
     if cs.resetPinSource i != rs then s := s.diff s!"resetPinSource clock={i} model={repr (cs.resetPinSource i)} impl={repr rs}"
-  -- derived clocks: attributes = parent's, overridden by what the configuration gives (`deriveDecl`)
+  -- every clock: the reported attributes must be what the configuration asked for (roots) / `deriveDecl` of the parent's (derived)
   for (i, cfg, mul) in c.ccfg do
     let d := cs.get i
-    match d.parent with
-    | none => s := s.diff s!"ccfg for root clock {i}"
-    | some pi =>
-      let e := deriveDecl pi (cs.get pi) (mul.getD 1) cfg   -- `m_parentRelativeMultiplicator = 1` unless given
-      if e.freqOrMul != d.freqOrMul then s := s.propfail s!"kind=derived-clock-attribute attr=multiplier clock={i} parent={pi} expected={showRat e.freqOrMul} reported={showRat d.freqOrMul}"
-      let inh := fun (o : Bool) => if o then "given" else "inherited"
-      if e.trig != d.trig then s := s.propfail s!"kind=derived-clock-attribute attr=trigger:{inh cfg.trig.isSome} clock={i} parent={pi} parent_trig={trigName (cs.get pi).trig} expected={trigName e.trig} reported={trigName d.trig}"
-      if e.rstType != d.rstType then s := s.propfail s!"kind=derived-clock-attribute attr=resetType:{inh cfg.rstType.isSome} clock={i} parent={pi} expected={rstName e.rstType} reported={rstName d.rstType}"
-      if e.activeHigh != d.activeHigh then s := s.propfail s!"kind=derived-clock-attribute attr=resetActive:{inh cfg.activeHigh.isSome} clock={i} parent={pi} expected={e.activeHigh} reported={d.activeHigh}"
-      if e.name != d.name then s := s.propfail s!"kind=derived-clock-attribute attr=name:{inh cfg.name.isSome} clock={i} parent={pi} expected={e.name} reported={d.name}"
-      if e.resetName != d.resetName then s := s.propfail s!"kind=derived-clock-attribute attr=resetName:{inh cfg.resetName.isSome} clock={i} parent={pi} expected={e.resetName} reported={d.resetName}"
-      if e.phaseSync != d.phaseSync then s := s.propfail s!"kind=derived-clock-attribute attr=phaseSync:{inh cfg.phaseSync.isSome} clock={i} parent={pi} expected={e.phaseSync} reported={d.phaseSync}"
+    let e := cs.expectedDecl i cfg mul
+    for attr in ClockTree.declMismatch e d do
+      s := s.propfail s!"kind=derived-clock-attribute attr={attr} clock={i} parent={repr d.parent} expected=[f={showRat e.freqOrMul} trig={trigName e.trig} rst={rstName e.rstType} actHigh={e.activeHigh} name={e.name} rname={e.resetName} psync={e.phaseSync}] reported=[f={showRat d.freqOrMul} trig={trigName d.trig} rst={rstName d.rstType} actHigh={d.activeHigh} name={d.name} rname={d.resetName} psync={d.phaseSync}]"
   let a := cs.alloc
   let showL (l : List Nat) := String.join (l.map fun x => s!"{x},")
   let showP (l : List (Nat × Nat)) := String.join (l.map fun (x, y) => s!"{x}:{y},")
